@@ -1,6 +1,7 @@
 /-
   Lemmas about the model of `decode_cont_char` (RsjModel/Utf8.lean):
-  bounds on the number of bytes consumed.
+  bounds on the number of bytes consumed, the code point computations as
+  arithmetic, and absence of the `from_u32(..).unwrap()` panic.
 -/
 import RsjModel.Utf8
 namespace Rsj.Utf8
@@ -85,4 +86,66 @@ theorem decodeCont_bad_le {b : Nat} {rest : List Nat} {n : Nat}
   · next h3 _ => cases h; have := ok3_lt (by simpa using h3); omega
   · next h4 _ => cases h; have := ok4_lt (by simpa using h4); omega
   · next hc _ => cases h; have := safeGet_cont (Decidable.not_not.mp hc); omega
+theorem or_shift (a b i : Nat) (h : b < 2 ^ i) : (a <<< i) ||| b = a * 2 ^ i + b := by
+  rw [← Nat.shiftLeft_add_eq_or_of_lt h, Nat.shiftLeft_eq]
+
+theorem and63 (x : Nat) : x &&& 63 = x % 64 := Nat.and_two_pow_sub_one_eq_mod x 6
+theorem and31 (x : Nat) : x &&& 31 = x % 32 := Nat.and_two_pow_sub_one_eq_mod x 5
+theorem and15 (x : Nat) : x &&& 15 = x % 16 := Nat.and_two_pow_sub_one_eq_mod x 4
+theorem and7 (x : Nat) : x &&& 7 = x % 8 := Nat.and_two_pow_sub_one_eq_mod x 3
+
+theorem shl6 (x : Nat) : x <<< 6 = x * 64 := by have := Nat.shiftLeft_eq x 6; omega
+theorem shl12 (x : Nat) : x <<< 12 = x * 4096 := by have := Nat.shiftLeft_eq x 12; omega
+theorem pack6 (x y : Nat) : x * 2 ^ 12 + y * 64 = (x * 64 + y) <<< 6 := by rw [shl6]; omega
+theorem pack12 (x y : Nat) : x * 2 ^ 18 + y * 4096 = (x * 64 + y) <<< 12 := by rw [shl12]; omega
+
+theorem cp2_eq (b0 b1 : Nat) :
+    ((b0 &&& 31) <<< 6) ||| (b1 &&& 63) = b0 % 32 * 64 + b1 % 64 := by
+  rw [and31, and63, or_shift _ _ 6 (by omega)]
+
+theorem cp3_eq (b0 b1 b2 : Nat) :
+    ((b0 &&& 15) <<< 12) ||| ((b1 &&& 63) <<< 6) ||| (b2 &&& 63) =
+      b0 % 16 * 4096 + b1 % 64 * 64 + b2 % 64 := by
+  rw [and15, and63, and63, shl6, or_shift _ _ 12 (by omega), pack6, or_shift _ _ 6 (by omega)]
+  omega
+
+theorem cp4_eq (b0 b1 b2 b3 : Nat) :
+    ((b0 &&& 7) <<< 18) ||| ((b1 &&& 63) <<< 12) ||| ((b2 &&& 63) <<< 6) ||| (b3 &&& 63) =
+      b0 % 8 * 262144 + b1 % 64 * 4096 + b2 % 64 * 64 + b3 % 64 := by
+  rw [and7, and63, and63, and63, shl12, shl6, or_shift _ _ 18 (by omega), pack12,
+    or_shift _ _ 12 (by omega), pack6, or_shift _ _ 6 (by omega)]
+  omega
+
+
+theorem ok3_iff (b0 b1 : Nat) : ok3 b0 b1 = true ↔
+    (b0 = 0xE0 ∧ 0xA0 ≤ b1 ∧ b1 ≤ 0xBF) ∨ (0xE1 ≤ b0 ∧ b0 ≤ 0xEC ∧ 0x80 ≤ b1 ∧ b1 ≤ 0xBF) ∨
+    (b0 = 0xED ∧ 0x80 ≤ b1 ∧ b1 ≤ 0x9F) ∨ (0xEE ≤ b0 ∧ b0 ≤ 0xEF ∧ 0x80 ≤ b1 ∧ b1 ≤ 0xBF) := by
+  simp [ok3, and_assoc, or_assoc]
+
+theorem ok4_iff (b0 b1 : Nat) : ok4 b0 b1 = true ↔
+    (b0 = 0xF0 ∧ 0x90 ≤ b1 ∧ b1 ≤ 0xBF) ∨ (0xF1 ≤ b0 ∧ b0 ≤ 0xF3 ∧ 0x80 ≤ b1 ∧ b1 ≤ 0xBF) ∨
+    (b0 = 0xF4 ∧ 0x80 ≤ b1 ∧ b1 ≤ 0x8F) := by
+  simp [ok4, and_assoc, or_assoc]
+
+theorem isScalar_iff (c : Nat) : isScalar c = true ↔ c < 0xD800 ∨ (0xE000 ≤ c ∧ c < 0x110000) := by
+  simp [isScalar]
+
+theorem decodeCont_no_panic (b : Nat) (rest : List Nat) : decodeCont b rest ≠ .panic := by
+  unfold decodeCont fromU32
+  dsimp only
+  rw [cp2_eq, cp3_eq, cp4_eq]
+  repeat' split
+  all_goals first
+    | (intro h; cases h; done)
+    | skip
+  · next h1 h2 _ hs => rw [isScalar_iff] at hs; omega
+  · next h1 h2 h3 h4 _ hs =>
+    rw [isScalar_iff] at hs
+    have := (ok3_iff _ _).mp (by simpa using h4)
+    omega
+  · next h1 h2 h3 h4 h5 _ _ hs =>
+    rw [isScalar_iff] at hs
+    have := (ok4_iff _ _).mp (by simpa using h5)
+    omega
+
 end Rsj.Utf8
